@@ -94,6 +94,9 @@ def h16_eager(S, pre_len=3):
     pre = [PRE[S.pick(f"pre{i}", len(PRE))] for i in range(n)]
     action = CALLS[S.pick("eager", len(CALLS))]
     guarded = S.flag("actor_catches_Exception_around_the_response")
+    # the whole _Processor.process() around the actor, for a one-off or a periodic job: nothing else touches the broker afterwards
+    via_process = S.flag("through_the_processor")
+    periodic = S.flag("periodic_job") if via_process else False
     S.note("script", pre + [action])
     order = []
     after = []
@@ -111,6 +114,7 @@ def h16_eager(S, pre_len=3):
         w.rb.store_bucket = store
         key = RoutingKey(topic="job", queue="default", id_="m1")
         params = P.Parameters(retries=P.RetriesProperties(max_amount=3, already_tried=0),
+                              delay=P.DelayProperties(defer_by=real_timedelta(hours=1)) if periodic else P.DelayProperties(),
                               result=P.ResultProperties(id_="res1", ttl=None), timestamp=P.datetime.now())
         w.broker.queues["default"].processing.add(MemMessage(key, "", params))
 
@@ -140,7 +144,11 @@ def h16_eager(S, pre_len=3):
 
         actor = mk_actor(job, converter=BasicConverter, retry_policy=lambda retry_number=1: real_timedelta(seconds=3))
         proc = _Processor(w.conn)
-        res = await proc.actor_run(actor, key, params, "", w.conn)
+        if via_process:
+            await proc.process(actor, key, "", params)
+            res = None
+        else:
+            res = await proc.actor_run(actor, key, params, "", w.conn)
         out["res"] = res
         out["calls"] = [c["op"] for c in w.rec.calls]
         out["bucket"] = await w.rb.get_bucket("res1")
@@ -149,7 +157,8 @@ def h16_eager(S, pre_len=3):
     res = out["res"]
     S.cover("eager-" + action)
     S.check("rest-of-actor-body-not-run", after == [])
-    S.check("reported-as-done", res.reporting_done is True)
+    if res is not None:
+        S.check("reported-as-done", res.reporting_done is True)
     S.check("one-broker-action", out["calls"] == [BROKER_OP[action]], info=str(out["calls"]))
     # expected order: callbacks in registration order, the store where the latest set_* call stood
     sets = [i for i, p in enumerate(pre) if p in ("set_result", "set_exception")]
@@ -169,10 +178,12 @@ def h16_eager(S, pre_len=3):
         if len(st) == 1:
             if last == "set_result":
                 S.check("stored-the-latest-result", st[0][1] is True and st[0][2] == '{"v":%d}' % sets[-1], info=str(st))
-                S.check("outcome-reports-latest", res.success is True and res.data == '{"v":%d}' % sets[-1])
+                if res is not None:
+                    S.check("outcome-reports-latest", res.success is True and res.data == '{"v":%d}' % sets[-1])
             else:
                 S.check("stored-the-latest-exception", st[0][1] is False and st[0][3] == "KeyError", info=str(st))
-                S.check("outcome-reports-latest", res.success is False and isinstance(res.exception, KeyError))
+                if res is not None:
+                    S.check("outcome-reports-latest", res.success is False and isinstance(res.exception, KeyError))
     else:
         S.check("nothing-stored-without-set", not [x for x in order if x[0] == "STORE"])
 
